@@ -1,0 +1,30 @@
+//! Verification hooks (compiled only with `--cfg memcrs_verif`).
+//! Counters the correspondence harness reads to know when the server has
+//! consumed what was written to it and how large each read was.
+use std::collections::HashMap;
+use std::sync::atomic::{AtomicU64, Ordering};
+use std::sync::Mutex;
+
+pub static READS_BEGUN: AtomicU64 = AtomicU64::new(0);
+pub static READS_DONE: AtomicU64 = AtomicU64::new(0);
+pub static BYTES_READ: AtomicU64 = AtomicU64::new(0);
+pub static READ_SIZES: Mutex<Vec<usize>> = Mutex::new(Vec::new());
+static PENDING: Mutex<Option<HashMap<usize, usize>>> = Mutex::new(None);
+
+/// A connection (identified by its address) is about to read; `len` is the
+/// length of its buffer before the read.
+pub fn note_read_begin(conn: usize, len: usize) {
+    PENDING.lock().unwrap().get_or_insert_with(HashMap::new).insert(conn, len);
+    READS_BEGUN.fetch_add(1, Ordering::SeqCst);
+}
+
+/// The read returned; `len` is the length of the buffer after it.
+pub fn note_read_end(conn: usize, len: usize) {
+    let before = PENDING.lock().unwrap().get_or_insert_with(HashMap::new).remove(&conn);
+    if let Some(before) = before {
+        let n = len - before;
+        READ_SIZES.lock().unwrap().push(n);
+        BYTES_READ.fetch_add(n as u64, Ordering::SeqCst);
+        READS_DONE.fetch_add(1, Ordering::SeqCst);
+    }
+}
